@@ -146,12 +146,16 @@ def run_check(pid, level, module_run, argv):
     ctx = Ctx(pid, tier)
     global VIOL_DIR
     if os.path.realpath(ctx.repo) != "/repo":
-        VIOL_DIR = os.path.join(factsmod.CACHE, "scratch-evidence", "violations")
+        import hashlib
+        VIOL_DIR = os.path.join(factsmod.CACHE, "scratch-evidence", hashlib.sha1(ctx.repo.encode()).hexdigest()[:10], "violations")
     os.makedirs(VIOL_DIR, exist_ok=True)
     # remove stale replay files of this property
     for f in os.listdir(VIOL_DIR):
         if f.startswith(pid + "-"):
-            os.remove(os.path.join(VIOL_DIR, f))
+            try:
+                os.remove(os.path.join(VIOL_DIR, f))
+            except OSError:
+                pass
     try:
         module_run(ctx)
     except factsmod.AnalysisError as e:
